@@ -784,12 +784,40 @@ def check_instance_cases(res: Result, cases: list[dict[str, Any]], tmp: Path) ->
             if case["kind"] in ("jgl", "h5l") and key not in seen:
                 small = shrink_life(case, key, tmp)
                 what = next((w for k, w in instance_run(small, tmp)[1] if k == key), what)
+            if case["kind"] == "jgl":
+                what = f"JSONGrammar life [{instance_line(small)}]: {what}"
             res.violate("oracle", key, what, {"case": {k: v for k, v in small.items() if k != "flags"}, "line": instance_line(small)})
         if impl == m:
             res.traces_validated += 1
             res.nontrivial((case["kind"], line))
             continue
         res.disagreements += 1
+        if ok and case["kind"] in ("jgl", "h5l"):
+            # failing-input search around the disagreement: the same life with one operation dropped / doubled
+            found = False
+            for fld in ("ops", "post"):
+                for i in range(len(case.get(fld, []))):
+                    if case[fld][i] in (["P"], ["L"]) and case["kind"] == "h5l":
+                        continue
+                    for variant in ("drop", "double"):
+                        cand = json.loads(json.dumps(case))
+                        if variant == "drop":
+                            del cand[fld][i]
+                        elif case["kind"] == "jgl":
+                            cand[fld].insert(i, cand[fld][i])
+                        else:
+                            continue
+                        _, bad2 = instance_run(cand, tmp)
+                        res.evaluations += 1
+                        if bad2:
+                            found = True
+                            res.violate("oracle", bad2[0][0], bad2[0][1], {"case": {k: v for k, v in cand.items() if k != "flags"}, "line": instance_line(cand)})
+                            break
+                    if found:
+                        break
+                if found:
+                    break
+            ok = not found
         if ok:
             res.violate(
                 "correspondence",
